@@ -175,8 +175,9 @@ func (ctx *parseContext) expandSingleValueMacro(arg string) (string, error) {
 		}
 
 		var value string
-		if ctx.macros[macroName] != nil {
-			// Macros have at least one argument.
+		if len(ctx.macros[macroName]) != 0 {
+			// Macro can have no values if its declaration consists only of
+			// references to undefined macros.
 			value = ctx.macros[macroName][0]
 		}
 
